@@ -877,3 +877,31 @@ def peel_await(e):
             if len(rs) == 1 and rs[0][1] == re.sub(r"::\{closure#\d+\}$", "", c[1]):
                 return rs[0]
     return e
+
+
+def cmp_intervals(d_coeff, k, op):
+    """For the integer comparison  c*x + k  op  0  (c = +1 or -1): the interval of x on the true edge
+    and on the false edge, each as (lo, hi) with None for unbounded. None for ==/!=."""
+    if op in ("==", "!=") or d_coeff not in (1, -1):
+        return None
+
+    def iv(op_):
+        # c*x + k op_ 0
+        if d_coeff == 1:
+            if op_ == "<":
+                return (None, -k - 1)
+            if op_ == "<=":
+                return (None, -k)
+            if op_ == ">":
+                return (-k + 1, None)
+            return (-k, None)
+        # -x + k op_ 0  <=>  x  rev(op_)  k
+        if op_ == "<":      # -x + k < 0  => x > k
+            return (k + 1, None)
+        if op_ == "<=":
+            return (k, None)
+        if op_ == ">":      # x < k
+            return (None, k - 1)
+        return (None, k)
+    neg = {"<": ">=", "<=": ">", ">": "<=", ">=": "<"}[op]
+    return iv(op), iv(neg)
